@@ -505,7 +505,7 @@ func (f *Frame) instr(in ssa.Instruction) {
 	case *ssa.DebugRef:
 	case *ssa.Alloc:
 		elem := in.Type().(*types.Pointer).Elem()
-		if !in.Heap {
+		if privateAlloc(in) {
 			// a non-escaping local: its storage is private to this activation, no callee or havoc can touch it
 			name := localComp(f.prefix, in)
 			p := &Place{kind: "global", comp: name, typ: elem}
@@ -764,6 +764,85 @@ func (e *Enc) loadFact(v string, t types.Type, st *State) string {
 		return e.typeFact(v, t, st)
 	}
 	return "true"
+}
+
+// privateAlloc: the storage of a is reachable only from this activation. Either go/ssa says it does not escape,
+// or it is a scalar/pointer/interface/slice variable whose address is only loaded from, stored to, or captured
+// by closures that are themselves only deferred in this function (they run at its exit; never stored, passed on,
+// called inside loops or started as goroutines).
+func privateAlloc(a *ssa.Alloc) bool {
+	if !a.Heap {
+		return true
+	}
+	switch a.Type().(*types.Pointer).Elem().Underlying().(type) {
+	case *types.Struct, *types.Array:
+		return false
+	}
+	refs := a.Referrers()
+	if refs == nil {
+		return false
+	}
+	for _, r := range *refs {
+		switch x := r.(type) {
+		case *ssa.DebugRef:
+		case *ssa.UnOp:
+			if x.Op != token.MUL {
+				return false
+			}
+		case *ssa.Store:
+			if x.Addr != a || x.Val == a {
+				return false
+			}
+		case *ssa.MakeClosure:
+			if x.Parent() != a.Parent() {
+				return false
+			}
+			crefs := x.Referrers()
+			if crefs == nil {
+				return false
+			}
+			for _, cr := range *crefs {
+				switch y := cr.(type) {
+				case *ssa.DebugRef:
+				case *ssa.Defer:
+					if y.Call.Value != x {
+						return false
+					}
+				default:
+					return false
+				}
+			}
+			// the closure body must not leak the address either
+			fn := x.Fn.(*ssa.Function)
+			for i, b := range x.Bindings {
+				if b != a {
+					continue
+				}
+				fv := fn.FreeVars[i]
+				if fv.Referrers() == nil {
+					return false
+				}
+				for _, fr := range *fv.Referrers() {
+					switch z := fr.(type) {
+					case *ssa.DebugRef:
+					case *ssa.UnOp:
+						if z.Op != token.MUL {
+							return false
+						}
+					case *ssa.Store:
+						if z.Addr != fv || z.Val == fv {
+							return false
+						}
+					default:
+						return false
+					}
+				}
+			}
+		default:
+			return false
+		}
+	}
+	return true
 }
 
 func localComp(prefix string, a *ssa.Alloc) string {
